@@ -65,7 +65,8 @@ Pragmas == {"/* @jsx h foo */", "/** @jsxImportSource vue */", "/* @jsx */", "//
 PragmaBodies == {"export const s = <div/>;", "export const s = <><b/></>;"}
 
 (* ---- C08: adversarial ---- *)
-DirNames == {"v-foo", "v-show", "v-html", "v-text", "v-model", "v-models", "v-slots", "vFoo", "v-model:a", "v-foo:a_b"}
+DirNames == {"v-foo", "v-show", "v-html", "v-text", "v-model", "v-models", "v-slots", "vFoo", "v-model:a", "v-foo:a_b",
+             "v-été", "v-ürün:a_b", "vÉté", "v-日本"}     \* names whose first letter is not ASCII
 AttrValues == {"", "=\"s\"", "={x}", "={}", "=<b/>", "=<></>", "={[]}", "={[,]}", "={[x, , ]}", "={[[]]}", "={{}}", "={[...a]}",
                "={[x, ...b]}", "={() => 1}", "={[x, [y], [z]]}", "={[x, 'a', 'b']}", "={[x, ['a'], ['b']]}"}
 DirForms == {"export const s = <div " \o n \o v \o " />;" : n \in DirNames, v \in AttrValues}
